@@ -20,25 +20,14 @@
 
 package internal
 
-import (
-	"bytes"
-	"strconv"
-)
+import "strconv"
 
 // UnquoteSingleQuoted unquotes a slice of bytes representing a single quoted
 // string.
 //
 //	UnquoteSingleQuoted([]byte("'foo'")) == "foo"
 func UnquoteSingleQuoted(in []byte) (string, error) {
-	out := string(swapQuotes(unescapeQuotes(in, '"')))
-	str, err := strconv.Unquote(out)
-	if err != nil {
-		return str, err
-	}
-
-	// s/'/"/g, s/"/'/g
-	out = string(swapQuotes([]byte(str)))
-	return out, nil
+	return strconv.Unquote(string(requote(in, '\'')))
 }
 
 // UnquoteDoubleQuoted unquotes a slice of bytes representing a double quoted
@@ -46,29 +35,43 @@ func UnquoteSingleQuoted(in []byte) (string, error) {
 //
 //	UnquoteDoubleQuoted([]byte("\"foo\"")) == "foo"
 func UnquoteDoubleQuoted(in []byte) (string, error) {
-	return strconv.Unquote(string(unescapeQuotes(in, '\'')))
+	return strconv.Unquote(string(requote(in, '"')))
 }
 
-// unescapeQuotes unescapes all occurences of a quote character in a string.
+// requote rewrites a string literal delimited by the given quote character
+// as a Go double quoted string literal that strconv.Unquote understands.
 //
-//	unescapeQuotes([]byte{'\\', '"'}, '"') == []byte{'"'}
-//	unescapeQuotes([]byte{'\\', '\''}, '\'') == []byte{'\''}
-func unescapeQuotes(in []byte, quote byte) []byte {
-	return bytes.ReplaceAll(in, []byte{'\\', quote}, []byte{quote})
-}
-
-// swapQuotes replaces all single quotes with double quotes and all double
-// quotes with single quotes.
-func swapQuotes(in []byte) []byte {
-	// s/'/"/g, s/"/'/g
-	out := make([]byte, len(in))
-	for i, c := range in {
-		if c == '"' {
-			c = '\''
-		} else if c == '\'' {
-			c = '"'
-		}
-		out[i] = c
+// The body of the literal is copied one escape sequence at a time: \' becomes
+// ' (Go does not accept \' inside double quotes), an unescaped " becomes \",
+// and everything else, including \\ and \", is left as it is.
+//
+//	requote([]byte(`'a "b" \'c\''`), '\'') == []byte(`"a \"b\" 'c'"`)
+//	requote([]byte(`"a \'b\' \\"`), '"') == []byte(`"a 'b' \\"`)
+func requote(in []byte, quote byte) []byte {
+	if len(in) < 2 || in[0] != quote || in[len(in)-1] != quote {
+		// Not a quoted literal. Leave it to strconv.Unquote.
+		return in
 	}
-	return out
+
+	body := in[1 : len(in)-1]
+	out := make([]byte, 0, len(in)+2)
+	out = append(out, '"')
+	for i := 0; i < len(body); i++ {
+		switch c := body[i]; {
+		case c == '\\' && i+1 < len(body):
+			// Consume the escaped character together with its backslash
+			// so that it is never mistaken for the start of another
+			// escape sequence.
+			i++
+			if body[i] != '\'' {
+				out = append(out, '\\')
+			}
+			out = append(out, body[i])
+		case c == '"':
+			out = append(out, '\\', '"')
+		default:
+			out = append(out, c)
+		}
+	}
+	return append(out, '"')
 }
